@@ -629,7 +629,7 @@ func (c *Ctx) consumedContracts(rule string) {
 		detail := ""
 		var bu *ssa.Phi
 		for _, ins := range instrs(f) {
-			if p, isPhi := ins.(*ssa.Phi); isPhi && p.Comment == "bu" {
+			if p, isPhi := ins.(*ssa.Phi); isPhi && canonName(p, p.Comment) == "bu" {
 				bu = p
 			}
 		}
